@@ -170,6 +170,21 @@ def run(prop, tier):
         # C03 looks at locations (memory image, pointer registers, read footprint); C04 at everything.
         v.absorb(reps, known)
         v.bounded = _bounded_note(units)
+        if prop == "C04":
+            # whole counted instructions with large counts, natively (the loop rule cuts the interpreter loop after one round)
+            from contracts import block_large_keys as BLK
+            proved = (v.obligations, v.discharged)
+            counts = [0xFFFF] if tier == "quick" else [0xFFFF, 0x8000, 0x7FFF, 0x0100]
+            lunits = [dict(key=k, counts=counts, kind="large-count", replayer="contracts.block_large:replay") for k in BLK.KEYS]
+            lreps = common.run_units("contracts.blockind:unit_large_count", lunits, budget=600)
+            v.absorb(lreps, known)
+            nb = (v.obligations - proved[0], v.discharged - proved[1])
+            v.obligations, v.discharged = proved
+            v.extra["bounded_obligations_large_counts"] = dict(generated=nb[0], discharged=nb[1], note="native whole-instruction runs with large counts: bounded, not counted in obligations/discharged")
+            v.bounded.append(dict(part="counted instructions executed whole with large counts (contracts/block_large.py, plain CPython)",
+                                  bound=f"{len(BLK.KEYS)} counted forms x I in {[hex(c) for c in counts]}: the instruction ends with I = 0 without error, an auto-modified pointer moved by I elements, "
+                                        "the number of byte stores equals the number of elements",
+                                  note="bounded companion of the loop rule for anything that ends a long run early from outside the IL (a step budget in the interpreter); values are covered by the induction"))
         if _induction_note(units):
             v.extra["induction"] = _induction_note(units)
         for r in reps:
